@@ -479,10 +479,14 @@ def appNode (e : Env) (f : File) (a : App) : Node :=
     indexed "mixin2" (a.mixins.map fun m => .msg [(Key.f "name", partsNode m)]) ++
     ownTypes e a ++ mixedTypes e f a ++
     a.eps.map (fun ep =>
-      -- an event receives one call per subscriber, in the order the subscriptions are written
-      let subs := if ep.event then subscriberCalls f a.parts ep.name else []
+      -- an event receives one call per subscriber, in the order the subscriptions are written: those of
+      -- applications written before the publisher come before the event's own statements, the others after
+      let before := f.apps.takeWhile (fun b => b.parts != a.parts)
+      let after := (f.apps.dropWhile (fun b => b.parts != a.parts)).drop 1
+      let subsB := if ep.event then subscriberCalls { f with apps := before } a.parts ep.name else []
+      let subsA := if ep.event then subscriberCalls { f with apps := after } a.parts ep.name else []
       (key "endpoints" ep.name,
-        epNode e a.parts ep (applyEpTemplates a.collector ep.name ep.attrs) (applyTemplates a.parts a.collector (ep.stmts ++ subs)))) ++
+        epNode e a.parts ep (applyEpTemplates a.collector ep.name ep.attrs) (applyTemplates a.parts a.collector (subsB ++ ep.stmts ++ subsA)))) ++
     a.subs.map (fun sb =>
       let name := joinApp sb.pub ++ " -> " ++ sb.event
       (key "endpoints" name, .msg ([(Key.f "name", qleaf name), (Key.f "source", partsNode sb.pub)] ++
